@@ -1024,6 +1024,16 @@ func (x *Exec) havocLoopCalls(st *State, l *Loop) {
 					names[n] = true
 				}
 			}
+			if g, ok := in.(*ssa.Go); ok {
+				// go statements are events of the same clock (chan.go doGo)
+				gn := "?"
+				if callee := g.Call.StaticCallee(); callee != nil {
+					gn = relName(callee)
+				} else if g.Call.IsInvoke() {
+					gn = g.Call.Method.Name()
+				}
+				names["go "+gn] = true
+			}
 		}
 	}
 	if len(names) > 0 {
